@@ -437,21 +437,35 @@ func ruleERRPROP(c *Ctx, r *Report) {
 				}
 				n++
 				used := false
-				check := func(v ssa.Value) {
+				var check func(v ssa.Value, depth int)
+				check = func(v ssa.Value, depth int) {
+					if depth > 4 {
+						return
+					}
 					for _, ref := range *v.Referrers() {
 						switch x := ref.(type) {
-						case *ssa.BinOp, *ssa.Return, *ssa.Phi, *ssa.Store, *ssa.MakeInterface:
-							_ = x
+						case *ssa.BinOp, *ssa.Return, *ssa.Store, *ssa.MakeInterface:
 							used = true
+						case *ssa.Phi:
+							// merging into a loop header means the next iteration overwrites it untested
+							hdr := false
+							for _, pr := range x.Block().Preds {
+								if x.Block().Dominates(pr) {
+									hdr = true
+								}
+							}
+							if !hdr {
+								check(x, depth+1)
+							}
 						}
 					}
 				}
 				if res.Len() == 1 {
-					check(call)
+					check(call, 0)
 				} else {
 					for _, ref := range *call.Referrers() {
 						if ex, ok := ref.(*ssa.Extract); ok && ex.Index == res.Len()-1 {
-							check(ex)
+							check(ex, 0)
 						}
 					}
 					// returned as a whole tuple? (return f(x))
@@ -510,6 +524,7 @@ func ruleENTRYTAIL(c *Ctx, r *Report) {
 			ev := c.resolve(p.Ret.Results[n-1], p.Env)
 			ex, isEx := ev.(*ssa.Extract)
 			if !isEx {
+				r.bad(rule, t.name+"|own-return|"+c.key(ev, p.Env), c.instrPos(p.Ret), fmt.Sprintf("%s has a return of its own (error %s) that is neither Parse's error nor the renderer's result: this entry point rejects (or accepts) queries the other one does not", t.name, c.key(ev, p.Env)))
 				continue
 			}
 			call, ok := ex.Tuple.(*ssa.Call)
@@ -686,5 +701,300 @@ func ruleCTORSHAPE(c *Ctx, r *Report) {
 			r.bad(rule, "list-recogniser|base", c.instrPos(p.Ret), fmt.Sprintf("the value-list recogniser accepts nodes of kind %v as list values; only plain Literal leaves are (patterns need LIKE, sub-expressions are not values)", setKeys(ops)))
 		}
 	}
+	// on a path through both recursive calls the verdict returned must take both into account
+	for _, p := range paths {
+		if p.Ret == nil || len(p.Ret.Results) != 2 {
+			continue
+		}
+		var calls []*ssa.Call
+		for _, in := range p.Instrs {
+			if call, ok := in.(*ssa.Call); ok && call.Call.StaticCallee() == rec {
+				calls = append(calls, call)
+			}
+		}
+		if len(calls) < 2 {
+			continue
+		}
+		rv := c.resolve(p.Ret.Results[1], p.Env)
+		if b, ok := constBoolVal(rv); ok && !b {
+			continue
+		}
+		rk := c.key(rv, p.Env)
+		for _, call := range calls {
+			vk := c.key(call, p.Env) + "#1"
+			used := strings.Contains(rk, vk)
+			for _, a := range p.Atoms {
+				if a.Kind == "bool" && a.Pos && a.Subj == vk {
+					used = true
+				}
+			}
+			key := "list-recogniser|verdict|" + c.key(call.Call.Args[0], p.Env)
+			if used {
+				r.ok(rule, key, c.instrPos(p.Ret), "verdict of this operand is taken into account")
+			} else {
+				r.bad(rule, key, c.instrPos(p.Ret), "the value-list recogniser can report success without looking at the verdict for "+c.key(call.Call.Args[0], p.Env)+": a non-literal operand of the OR chain is silently dropped from the query")
+			}
+		}
+	}
 	r.floor(rule, "recursive descents of the list recogniser", nRec, 2)
+}
+
+// NIL-ASSERT (C13/C01): the value of a comma-ok assertion to a pointer type is dereferenced only where ok holds.
+func ruleNILASSERT(c *Ctx, r *Report) {
+	const rule = "NIL-ASSERT"
+	r.doc(rule, "for every `v, ok := x.(*T)` in the library: v is dereferenced (field address, load, pointer-receiver call) only at points dominated by ok == true (with ok false v is nil)")
+	n := 0
+	for _, f := range c.Funcs {
+		if !inLib(f) {
+			continue
+		}
+		for _, b := range f.Blocks {
+			for _, in := range b.Instrs {
+				ta, ok := in.(*ssa.TypeAssert)
+				if !ok || !ta.CommaOk {
+					continue
+				}
+				if _, isPtr := ta.AssertedType.Underlying().(*types.Pointer); !isPtr {
+					continue
+				}
+				subj := c.key(ta.X, nil)
+				want := typeStr(ta.AssertedType)
+				for _, ref := range *ta.Referrers() {
+					ex, ok := ref.(*ssa.Extract)
+					if !ok || ex.Index != 0 {
+						continue
+					}
+					for _, use := range c.derefUses(ex, 0) {
+						n++
+						guarded := false
+						for _, a := range c.domAtoms(use.Block()) {
+							if a.Kind == "type" && a.Pos && a.Subj == subj && a.Val == want {
+								guarded = true
+							}
+							if a.Kind == "nil" && !a.Pos && a.Subj == c.key(ex, nil) {
+								guarded = true
+							}
+						}
+						key := fmt.Sprintf("%s|deref(%s.(%s))", fnName(f), subj, want)
+						if guarded {
+							r.ok(rule, key, c.instrPos(use), "under ok")
+						} else {
+							r.bad(rule, key, c.instrPos(use), fmt.Sprintf("%s dereferences the result of the comma-ok assertion %s.(%s) at a point where ok may be false (the value is nil then): nil-pointer panic", fnName(f), subj, want))
+						}
+					}
+				}
+			}
+		}
+	}
+	r.ok(rule, "derefs-examined", "-", fmt.Sprintf("%d dereferences of comma-ok asserted pointers examined", n))
+	r.floor(rule, "dereferences of asserted pointers", n, 10)
+}
+
+// derefUses: instructions that dereference pointer v (through phis).
+func (c *Ctx) derefUses(v ssa.Value, depth int) []ssa.Instruction {
+	var out []ssa.Instruction
+	if depth > 3 || v.Referrers() == nil {
+		return out
+	}
+	for _, use := range *v.Referrers() {
+		switch u := use.(type) {
+		case *ssa.UnOp:
+			if u.X == v && u.Op.String() == "*" {
+				out = append(out, use)
+			}
+		case *ssa.FieldAddr:
+			if u.X == v {
+				out = append(out, use)
+			}
+		case *ssa.IndexAddr:
+			if u.X == v {
+				out = append(out, use)
+			}
+		case *ssa.Phi:
+			out = append(out, c.derefUses(u, depth+1)...)
+		}
+	}
+	return out
+}
+
+// PANIC-LIB (C13/C01): standard-library calls that panic on a bad argument.
+func rulePANICLIB(c *Ctx, r *Report) {
+	const rule = "PANIC-LIB"
+	r.doc(rule, "reachable calls of strings.Repeat / bytes.Repeat need a provably non-negative count; make with a computed length needs a provably non-negative length")
+	reach := c.reachFrom(append(c.rootsC01(), c.rootsC13()...))
+	n := 0
+	for _, fn := range sortedFuncs(reach) {
+		if !inLib(fn) {
+			continue
+		}
+		for _, b := range fn.Blocks {
+			for _, in := range b.Instrs {
+				var arg ssa.Value
+				what := ""
+				switch x := in.(type) {
+				case *ssa.Call:
+					name := calleeFullName(x)
+					if name == "strings.Repeat" || name == "bytes.Repeat" {
+						arg, what = x.Call.Args[1], name+" count"
+					}
+				case *ssa.MakeSlice:
+					if _, isC := x.Len.(*ssa.Const); !isC {
+						arg, what = x.Len, "make length"
+					}
+				}
+				if arg == nil {
+					continue
+				}
+				n++
+				atoms := c.atomsAt(in)
+				key := fnName(fn) + "|" + what + "|" + c.key(arg, nil)
+				ok := c.nonNegative(arg, atoms, map[ssa.Value]bool{})
+				if !ok {
+					// len(x) - k with a fact len(x) ≥ k
+					base, off := c.linear(arg)
+					if call, isCall := base.(*ssa.Call); isCall && off < 0 {
+						if bi, isB := call.Call.Value.(*ssa.Builtin); isB && bi.Name() == "len" {
+							lo, _ := lenRange(atoms, c.key(call.Call.Args[0], nil))
+							ok = lo >= -off
+						}
+					}
+				}
+				if ok {
+					r.ok(rule, key, c.instrPos(in), "non-negative")
+				} else {
+					r.bad(rule, key, c.instrPos(in), fmt.Sprintf("%s passes %s as %s, which can be negative (e.g. for an empty list): the call panics", fnName(fn), c.key(arg, nil), what))
+				}
+			}
+		}
+	}
+	r.ok(rule, "calls-examined", "-", fmt.Sprintf("%d calls examined", n))
+}
+
+// JSON-KINDS (C12): payload kinds the parser can produce ⊆ kinds the decoder can reproduce.
+func ruleJSONKINDS(c *Ctx, r *Report) {
+	const rule = "JSON-KINDS"
+	r.doc(rule, "every Go kind of leaf payload the token→literal function can produce (static types of the values it hands to the leaf constructors) is a kind the JSON literal decoder can produce too; the decoder's int narrowing is not restricted to a magnitude below 2^53")
+	pr := c.parserRoles()
+	if pr.Err != "" || pr.TokToLit == nil {
+		r.bad(rule, "anchor", "-", "token→literal function not found")
+		return
+	}
+	kinds := func(f *ssa.Function) map[string]string {
+		out := map[string]string{}
+		for fn := range c.reachFrom([]*ssa.Function{f}) {
+			if fnPkgPath(fn) != fnPkgPath(f) {
+				continue
+			}
+			for _, b := range fn.Blocks {
+				for _, in := range b.Instrs {
+					call, ok := in.(*ssa.Call)
+					if !ok || call.Call.StaticCallee() == nil || fnPkgPath(call.Call.StaticCallee()) != pkgExpr || len(call.Call.Args) == 0 {
+						continue
+					}
+					callee := call.Call.StaticCallee()
+					if callee.Signature.Results().Len() != 1 || !isExprPtr(callee.Signature.Results().At(0).Type()) {
+						continue
+					}
+					a := call.Call.Args[0]
+					if mi, ok := a.(*ssa.MakeInterface); ok {
+						out[typeStr(mi.X.Type())] = c.instrPos(in)
+					}
+				}
+			}
+		}
+		return out
+	}
+	var dec *ssa.Function
+	for _, f := range c.Funcs {
+		if fnPkgPath(f) == pkgExpr && f.Parent() == nil && f.Signature.Params().Len() == 1 && f.Signature.Results().Len() == 2 &&
+			isExprPtr(f.Signature.Results().At(0).Type()) && strings.HasSuffix(typeStr(f.Signature.Params().At(0).Type()), "json.RawMessage") {
+			dec = f
+		}
+	}
+	if dec == nil {
+		r.bad(rule, "decoder-literal", "-", "JSON literal decoder (func(json.RawMessage) (*Expression, error)) not found")
+		return
+	}
+	pk, dk := kinds(pr.TokToLit), kinds(dec)
+	for k, pos := range pk {
+		key := "parser-kind|" + k
+		if _, ok := dk[k]; ok {
+			r.ok(rule, key, pos, "decoder can produce it")
+		} else {
+			r.bad(rule, key, pos, fmt.Sprintf("the parser produces leaf payloads of kind %s, which the JSON literal decoder never produces (it yields %v): such a query encodes but cannot be decoded back", k, setKeys(boolMap(dk))))
+		}
+	}
+	r.floor(rule, "payload kinds of the parser", len(pk), 3)
+	// int narrowing of decoded numbers
+	for _, f := range c.Funcs {
+		if fnPkgPath(f) != pkgExpr || f.Signature.Params().Len() != 1 || f.Signature.Results().Len() != 1 || !isEmptyInterface(f.Signature.Params().At(0).Type()) || !isEmptyInterface(f.Signature.Results().At(0).Type()) {
+			continue
+		}
+		paths, _ := c.enumPaths(f, 500)
+		for _, p := range paths {
+			if p.Ret == nil {
+				continue
+			}
+			mi, ok := p.Ret.Results[0].(*ssa.MakeInterface)
+			if !ok || typeStr(mi.X.Type()) != "int" {
+				continue
+			}
+			limited := ""
+			for _, a := range p.Atoms {
+				if a.Kind == "cmp" && (a.Op == "<" || a.Op == "<=") {
+					var lim float64
+					if _, err := fmt.Sscan(a.Val, &lim); err == nil && lim < 9007199254740992 && lim > 0 {
+						limited = a.String()
+					}
+				}
+			}
+			key := fnName(f) + "|int-narrowing"
+			if limited == "" {
+				r.ok(rule, key, c.instrPos(p.Ret), "whole floats are narrowed to int without a magnitude limit below 2^53")
+			} else {
+				r.bad(rule, key, c.instrPos(p.Ret), fmt.Sprintf("the decoder narrows whole numbers to int only under %s: larger integers (which the parser types as int) decode as float64, so the decoded tree is not the encoded one and renders differently", limited))
+			}
+		}
+	}
+}
+
+// REC-ONCE (C01): a recursive function does not visit the same sub-term twice on one path.
+func ruleRECONCE(c *Ctx, r *Report) {
+	const rule = "REC-ONCE"
+	r.doc(rule, "in every self-recursive library function, no path makes two recursive calls on the same sub-term: visiting a child twice per level makes the running time exponential in the depth of the tree")
+	n := 0
+	for _, f := range c.Funcs {
+		if !inLib(f) || !c.calls(f, f) {
+			continue
+		}
+		paths, complete := c.enumPaths(f, 5000)
+		if !complete {
+			continue
+		}
+		bad := map[string]string{}
+		for _, p := range paths {
+			seen := map[string]int{}
+			for _, in := range p.Instrs {
+				if call, ok := in.(*ssa.Call); ok && call.Call.StaticCallee() == f {
+					var ks []string
+					for _, a := range call.Call.Args {
+						ks = append(ks, c.key(a, p.Env))
+					}
+					k := strings.Join(ks, ",")
+					seen[k]++
+					if seen[k] == 2 {
+						bad[k] = c.instrPos(in)
+					}
+				}
+			}
+		}
+		n++
+		if len(bad) == 0 {
+			r.ok(rule, fnName(f), c.pos(f.Pos()), "each sub-term visited at most once per path")
+		}
+		for k, pos := range bad {
+			r.bad(rule, fnName(f)+"|"+k, pos, fmt.Sprintf("%s calls itself twice on the same sub-term (%s) on one path: the work doubles at every level, so the running time is exponential in the nesting depth", fnName(f), k))
+		}
+	}
+	r.floor(rule, "self-recursive functions", n, 2)
 }
